@@ -244,10 +244,28 @@ func (t *tabEnv) pendingIDs() []string {
 // apply executes one event and waits for quiescence. It returns an error text if
 // the event could not be applied (unknown pending ping etc.).
 func (t *tabEnv) apply(ev string) string {
-	if e := t.applyNoWait(ev); e != "" {
-		return e
+	// the call is handed to the loop goroutine; if that goroutine has died (a panic, kept in
+	// loopErr) the call never returns - and timers elsewhere keep the virtual clock running, so
+	// no deadlock would ever be reported
+	done := make(chan string, 1)
+	go func() { done <- t.applyNoWait(ev) }()
+	select {
+	case e := <-done:
+		if e != "" {
+			return e
+		}
+	case <-t.loopEnd:
+		select {
+		case e := <-done: // the event itself ended the loop? no: it returned, fine
+			if e != "" {
+				return e
+			}
+		default:
+		}
 	}
-	synctest.Wait()
+	if t.loopErr == "" {
+		synctest.Wait()
+	}
 	return ""
 }
 
